@@ -28,7 +28,7 @@ ASSUMPTIONS = ['input breadth is what the generator reaches (every table entry x
 REAL = ['smartquery.* (evaluator, every builtin)', 'regex', 'decimal', 'copy']
 STUB = ['host (binds plain data only)', 'I/O seam (audit hook)', 'entropy source']
 REACH_PROBES = ('host_phase_then_plain', 'parse_failure_then_use', 'stored_result_reused', 'builtin_as_argument', 'attr_like_string', 'fresh_construction_eval', 'every_table_entry_applied',
-                'audit_armed_evals', 'index_on_builtin', 'ops_limit_hit_under_audit')
+                'audit_armed_evals', 'index_on_builtin', 'ops_limit_hit_under_audit', 'reentry_under_audit')
 
 
 def generate(seed, tier):
@@ -66,6 +66,15 @@ def generate(seed, tier):
             # budget fault: this call is cut short by the ops limit (the error path is evaluation under the same rules)
             ops[-1]['budget'] = ro.choice([1, 2, 3, 5, 8, 13])
     world = {'names': dict(exerciser.HOST_NAMES), 'fresh': rc.random() < 0.03}
+    if rc.random() < 0.15:
+        # the host binds one function of its own, re(i), that calls back into the same parser during an evaluation
+        world['reentry'] = [{'api': 'eval', 'names': 'fresh', 'prog': ['bin', '+', ['num', '1'], ['num', '1']]},
+                            {'api': 'eval', 'names': 'same', 'prog': ['block', [['assign', 'V6', ['list', [['num', '1']]]], ['name', 'V6']]]},
+                            {'api': 'list_names', 'prog': ['call', 'ff', [['name', 'aa'], ['name', 'bb']], 'plain'], 'consume': 1},
+                            {'api': 'parse', 'prog': ['bin', '+', ['name', 'aa'], ['num', '1']]}]
+        for i in range(rc.randint(1, 3)):
+            k = rc.randrange(4)
+            ops.insert(rc.randrange(len(ops) + 1), {'op': 'src', 'src': rc.choice(['re(%d)' % k, 'V5 = [1, re(%d)]\nV5' % k, 'map([1, 2], v => re(%d))' % k])})
     if host_phase:
         # before this history the host used the same parser with a function bound in names (fetch returns a live
         # module object); it has since removed it: from here on only plain data (and lambdas programs defined) is bound
@@ -115,7 +124,34 @@ def _build(op, table_names, stored):
     return prog, used, tgt
 
 
+# stdlib modules a harness has long imported but a production process may not have: taken out of sys.modules for the
+# duration of a run, so that a lazy `import x` inside the library DURING an evaluation is real import activity again
+LAZY_MODULES = ('json', 'json.decoder', 'json.encoder', 'json.scanner', 'pprint', 'textwrap', 'difflib', 'statistics', 'fractions', 'csv',
+                'shlex', 'html', 'string', 'pickle', 'base64', 'uuid', 'datetime', 'calendar', 'numbers', 'bisect', 'heapq', 'unicodedata', 'logging',
+                'traceback', 'linecache', 'tokenize', 'inspect', 'dis', 'ast', 'reprlib', 'locale', 'gettext', 'struct', 'binascii', 'hashlib', 'math', 'cmath')
+
+
 def execute(case, ctx):
+    import sys as _sys
+    # modules the package itself imported at load time stay (they are part of its import, not of an evaluation)
+    own = set()
+    for nm, mod in list(_sys.modules.items()):
+        if mod is not None and (nm == 'smartquery' or nm.startswith('smartquery.')):
+            for v in vars(mod).values():
+                if type(v).__name__ == 'module':
+                    own.add(v.__name__)
+    evicted = {m: _sys.modules.pop(m) for m in LAZY_MODULES if m in _sys.modules and m not in own and m.split('.')[0] not in own}
+    try:
+        return _execute(case, ctx)
+    finally:
+        for m in LAZY_MODULES:
+            if m in evicted:
+                _sys.modules[m] = evicted[m]
+            elif m in _sys.modules and m not in own:
+                pass
+
+
+def _execute(case, ctx):
     from smartquery.sq_parser import SqParser
     names = {k: lang.dec_value(v) for k, v in case['world']['names'].items()}
     from ..seams import make_cache
@@ -135,6 +171,14 @@ def execute(case, ctx):
         ctx.probe('host_phase_then_plain')
     if case['world'].get('fresh'):
         ctx.probe('fresh_construction_eval')
+    if case['world'].get('reentry'):
+        from ..world import Host
+        host = Host()
+        host.reentry = list(case['world']['reentry'])
+        host.parser = parser
+        names['re'] = host.fns(['re'])['re']
+        ctx.fault('reentrant_host_function_bound')
+        ctx.probe('reentry_under_audit')
     table = monitors.M.functions.FUNCTIONS
     table_names = sorted(table)
     allowed = hooks.make_allowed_callable(None)
